@@ -125,11 +125,51 @@ def concrete_probe(sem, sfs, instrs):
     return None, None, None
 
 
+_COMMUTES = {}
+
+
+def commutes(disasm, timeout_ms=20000):
+    """does OP(a, b) = OP(b, a) hold for all 256-bit a, b?  ("yes", None) | ("no", (a, b)) | ("unknown", None); one solver
+    query per opcode name, cached.  A specification that marks an instruction `commutative` allows every back end (and the
+    checker) to swap its operands, so the mark is part of what the specification denotes."""
+    if disasm in _COMMUTES:
+        return _COMMUTES[disasm]
+    res = ("unknown", None)
+    try:
+        ctx = E.Ctx(abstract=False)
+        terms = []
+        for order in ((0, 1), (1, 0)):
+            ins = {"id": "X_0", "disasm": disasm, "opcode": "00", "inpt_sk": ["s(%d)" % order[0], "s(%d)" % order[1]], "outpt_sk": ["s(9)"],
+                   "commutative": True, "storage": False, "gas": 3, "size": 1}
+            sem = S.SpecSem(ctx, {"src_ws": ["s(0)", "s(1)"], "tgt_ws": ["s(9)"], "user_instrs": [ins], "memory_dependences": [],
+                                  "storage_dependences": [], "dependencies": []})
+            terms.append(sem.value("s(9)"))
+        verdict, model = solve(ctx.assumptions + ctx.side + [terms[0] != terms[1]], timeout_ms, STATS, "commutative-mark")
+        if verdict == "unsat":
+            res = ("yes", None)
+        elif verdict == "sat":
+            a = model.eval(ctx.inp(0), model_completion=True).as_long()
+            b = model.eval(ctx.inp(1), model_completion=True).as_long()
+            res = ("no", (a, b))
+    except Exception:                     # noqa: an opcode the semantics does not cover decides nothing
+        res = ("unknown", None)
+    _COMMUTES[disasm] = res
+    return res
+
+
 def check_spec(sfs, instrs, timeout_ms=10000, max_relevant=MAX_RELEVANT, kind="c02"):
     t0 = time.time()
     nrel = len([i for i in sfs["user_instrs"] if i["disasm"] in S.RELEVANT])
     if nrel > max_relevant:
         return SpecResult("too-large", "%d memory/storage operations" % nrel, n_rel=nrel)
+    for ins in sfs["user_instrs"]:
+        if ins.get("commutative") is True and len(ins.get("inpt_sk", [])) == 2 and ins["disasm"] not in S.RELEVANT:
+            v, w = commutes(ins["disasm"])
+            if v == "no":
+                why = "%s is marked commutative but %s(0x%x, 0x%x) differs from %s(0x%x, 0x%x): the back ends may swap its operands" % (
+                    ins["id"], ins["disasm"], w[0], w[1], ins["disasm"], w[1], w[0])
+                return SpecResult("different", why, {"observed": why, "state": {"a": hex(w[0]), "b": hex(w[1])}, "order": []},
+                                  time.time() - t0, nrel)
     probed = False
     for abstract in (True, False):
         try:
